@@ -24,6 +24,11 @@ from .core import enc
 SPECIES_POOL = ['Li', 'O', 'S', 'P']
 
 
+class QueryMismatch(Exception):
+    """an analysis query answered with data that does not describe the object it was asked of"""
+
+
+
 def enc_obj(coords: np.ndarray) -> str:
     T, A, _ = coords.shape
     return f'{T} {A} ' + ' '.join(enc(v) for v in coords.reshape(-1).tolist())
@@ -150,14 +155,27 @@ def run_impl(lattice, objs, species, ops):
                 segs.append(('M', np.array(tr.mean_squared_displacement())))
             elif t == 'Q':
                 what = op[2]
+                # a query is read-only AND its answer describes the object as it is NOW (after any extend() before it)
+                n_frames, n_atoms = len(tr), len(sp_of[k])
                 if what == 'volume':
-                    tr.to_volume(resolution=1.0)
+                    vol = tr.to_volume(resolution=1.0)
+                    if int(np.sum(vol.data)) != n_frames * n_atoms:
+                        raise QueryMismatch(f'volume holds {int(np.sum(vol.data))} samples, the object has {n_frames} frames x {n_atoms} atoms')
                 elif what == 'speed':
-                    tr.metrics().speed()
+                    v = np.array(tr.metrics().speed())
+                    ref = np.diff(np.array(tr.distances_from_base_position()), prepend=0)  # change of the distance from the base position
+                    if v.shape != ref.shape or not np.allclose(v, ref, rtol=1e-9, atol=1e-12):
+                        raise QueryMismatch(f'speed has shape {v.shape}, the object has {n_atoms} atoms x {n_frames} frames' if v.shape != ref.shape else 'speed is not the change of the distance from the base position over the current frames')
                 elif what == 'msd':
-                    tr.mean_squared_displacement()
+                    v = np.array(tr.mean_squared_displacement())
+                    if v.shape != (n_atoms, n_frames):
+                        raise QueryMismatch(f'msd has shape {v.shape}, the object has {n_atoms} atoms x {n_frames} frames')
                 elif what == 'tracer':
-                    tr.metrics().tracer_diffusivity(dimensions=3)
+                    from gemdat.metrics import TrajectoryMetrics
+                    v = float(tr.metrics().tracer_diffusivity(dimensions=3))
+                    ref = float(TrajectoryMetrics(tr).tracer_diffusivity(dimensions=3))
+                    if not (v == ref or abs(v - ref) <= 1e-12 * max(abs(v), abs(ref))):
+                        raise QueryMismatch(f'tracer diffusivity {v} but a new metrics object on the same trajectory gives {ref}')
                 elif what == 'density':
                     tr.metrics().particle_density()
                 if MODEL_OF_QUERY[what] is not None:
